@@ -7,7 +7,8 @@
 From Coq Require Import NArith ZArith List Bool String.
 From Pq Require Import Base.Bytes Thrift.Varint Thrift.Compact Thrift.Idl Thrift.IdlPinned
   Impl.CThrift Impl.CThriftSpec Impl.CThriftTyped Proofs.CThriftTypedProofs Proofs.CompactProofs Proofs.CThriftProofs Proofs.CThriftRead
-  Proofs.CThriftRoundtrip Proofs.CThriftMain Proofs.CThriftReser Proofs.CThriftTotal Proofs.CThriftRepaired.
+  Proofs.CThriftRoundtrip Proofs.CThriftMain Proofs.CThriftReser Proofs.CThriftTotal Proofs.CThriftRepaired
+  Impl.KV Impl.ParseHeader Proofs.ParseHeaderProofs Proofs.CThriftPickle.
 Import ListNotations.
 Open Scope list_scope.
 Open Scope N_scope.
@@ -163,6 +164,43 @@ Theorem C10_field14_kept_repaired : CThriftSpec.dom ids14 63 w14 = true /\
 Proof. exact field14_kept. Qed.
 Print Assumptions C10_field14_kept_repaired.
 
+(* ---- wave 3: the pickle path.  __reduce_ex__ = (from_buffer, (bytes(to_bytes()), name)): unpickling is from_buffer o to_bytes.
+   For every object of the round-trip class (any struct, any number of fields / elements, any string length) whose serialisation
+   fits the buffer, the unpickled object is equal under ThriftObject.__eq__.  Tie: streams `pickle` and `struct-sizes`. *)
+Theorem C10_pickle_roundtrip_partial : forall a b c,
+  dom 63 (PDict a b c) = true ->
+  exists bs, ser (PDict a b c) = Some bs /\
+    forall cap, len bs <= cap ->
+      exists v', pickle_rt ids13 cap (PDict a b c) = Some v' /\ obj_eq (PDict a b c) v' = true.
+Proof. exact pickle_roundtrip. Qed.
+Print Assumptions C10_pickle_roundtrip_partial.
+
+(* ---- wave 3, PARSE side: which bytes of a FILE reach the thrift parser (model of api.ParquetFile._parse_header) ----------
+   Every data prefix, every footer length below 2^32 (no window, no size class; files shorter than any read-ahead included),
+   magic verification on or off; pure _metadata files; a result is always a window of the file ending 8 bytes before its end. *)
+Theorem C10_parse_header_hands_footer : forall (data footer : bytes) verify,
+  (N.of_nat (List.length footer) < 2 ^ 32)%N ->
+  (verify = true -> firstn 4 (data ++ footer) = magic) ->
+  parse_header false verify (framed data footer) = Some (footer, N.of_nat (List.length footer)).
+Proof. exact parse_header_framed. Qed.
+Print Assumptions C10_parse_header_hands_footer.
+
+Theorem C10_parse_header_metadata_file : forall (footer : bytes) verify,
+  parse_header true verify (framed_md footer) = Some (footer, N.of_nat (List.length footer)).
+Proof. exact parse_header_md. Qed.
+Print Assumptions C10_parse_header_metadata_file.
+
+Theorem C10_parse_header_window : forall (file : bytes) verify d hs,
+  parse_header false verify file = Some (d, hs) ->
+  exists pre, file = pre ++ d ++ skipn (List.length file - 8) file /\ N.of_nat (List.length d) = hs.
+Proof. exact parse_header_result_is_window. Qed.
+Print Assumptions C10_parse_header_window.
+
+Theorem C10_parse_header_short_refused : forall (file : bytes) verify,
+  (List.length file < 8)%nat -> parse_header false verify file = None.
+Proof. exact parse_header_short_refused. Qed.
+Print Assumptions C10_parse_header_short_refused.
+
 (* non-vacuity: a KeyValue-shaped object with an i32-marked and an i64 field; its bytes; the strict
    specification reader gives back the denoted tree; a truncating capacity really truncates *)
 Example C10_nonvacuous :
@@ -174,4 +212,11 @@ Example C10_nonvacuous :
   /\ typed_ok pinned 5 (FStruct "KeyValue"%string) 0 (PDict false None [(1%Z, PStr [107]); (2%Z, PStr [118])]) = true
   /\ typed_ok pinned 5 (FStruct "Statistics"%string) 0 (PDict true None [(3%Z, PInt 7)]) = false
   /\ option_map (fun p => obj_eq v (fst p)) (from_buffer [24; 1; 107; 21; 14; 22; 1; 25; 37; 2; 4; 0]) = Some true.
+Proof. vm_compute. repeat split. Qed.
+
+Example C10_parse_nonvacuous :
+  parse_header false true (framed [80;65;82;49;9;9] [21;2;0]) = Some ([21;2;0], 3)
+  /\ parse_header false true (framed [80;65;82;50;9;9] [21;2;0]) = None
+  /\ parse_header false false [3;0;0;0;80;65;82;49] = None
+  /\ parse_header true false (framed_md [21;2;0]) = Some ([21;2;0], 3).
 Proof. vm_compute. repeat split. Qed.
